@@ -17,6 +17,8 @@ LEVEL_TEXT = ('Weak structural claim only: the pool path merges exactly the coun
 
 
 def run(ctx):
+    from ..persist import rule_P12k
+    rule_P12k(ctx)      # ordered members are never rebuilt from the (alphabetical) group names
     prog = ctx.program
     # M1 first: it does not depend on the shape of the pool branch, which A3 needs
     rule_M1(ctx)      # what sample() hands out is inside the region contains() accepts
@@ -31,6 +33,10 @@ def run(ctx):
     k9 = rule_M9(ctx)
     ctx.require(k9 >= 4, 'M9 decided only %d cache obligations (floor 4)' % k9)
     rule_V2(ctx)      # the closed-form volumes, as exact algebra
+    from ..volumes import rule_V5
+    rule_V5(ctx)      # members hand back raw draws; only the union rejects and counts
+    from ..effects import rule_F3
+    rule_F3(ctx)      # every pool job draws from its own generator, in every member
     from ..initrules import rule_I2
     rule_I2(ctx)      # counters and cache start from zero in compute() and reset()
     rule_K2(ctx, classes={'Union', 'NautilusBound', 'Ellipsoid', 'UnitCubeEllipsoidMixture',
